@@ -42,13 +42,14 @@ def link_table(rng):
     for c, chain in enumerate("ABC"[:rng.randint(1, 3)]):
         n = rng.randint(3, 7)
         num = rng.choice([1, -3, 98])
+        dna = rng.random() < 0.4   # a DNA strand: DA/DC/DG/DT carry the same glycosidic torsion atoms
         for i in range(n):
             base = rng.choice("ACGU")
             d = rng.choice([1500, 1600, 1600, 1900, 1950, 1970, 2000, 2200, 2350, 2390, 2399, 2401, 2410, 2450, 2600, 3000])
             atoms = list(LINK_ATOMS) + ([("N9", (5000, 4800, 1400)), ("C4", (6200, 5200, 1000))] if base in "AG" else [("N1", (5000, 4800, 1400)), ("C2", (6200, 5200, 1000))])
             atoms.append(("O3'", (14000 - d, 0, 0)))
             for nm, (x, y, z) in atoms:
-                table.append({"record_type": "ATOM", "name": nm, "altLoc": "", "resName": base, "chainID": chain, "resSeq": num + i, "iCode": "", "element": genatoms.element_of(nm),
+                table.append({"record_type": "ATOM", "name": nm, "altLoc": "", "resName": ("D" + base.replace("U", "T")) if dna else base, "chainID": chain, "resSeq": num + i, "iCode": "", "element": genatoms.element_of(nm),
                               "charge": "", "occ100": 100, "het": False, "model": 1, "serial": serial, "x1000": 14000 * i + x, "y1000": y + 40000 * c, "z1000": z, "b100": 1000})
                 serial += 1
     return table
@@ -232,10 +233,26 @@ def run(ctx):
                 chi2 = {(row["chain_id"], row["residue_number"], row["insertion_code"]): row["chi"] for _, row in tors.iterrows()}
             except Exception as e:  # noqa: BLE001
                 chi2 = {}
+                ctx.violation(f"torsion_angles of the table-level reader raised {type(e).__name__}: {e}", {"kind": kind, "format": fmt, "file": text[:3000]})
             for r in rs:
                 k = (r.chain, r.number, r.icode)
-                c = chi2.get(k)
-                if c is not None and not (isinstance(c, float) and math.isnan(c)) and not math.isnan(r.chi):
+                if k not in chi2:
+                    continue  # the table has rows for the residues of connected segments only (compared above)
+                c = chi2[k]
+                has2 = c is not None and not (isinstance(c, float) and math.isnan(c))
+                has1 = not math.isnan(r.chi)
+                # the four atoms of the glycosidic torsion of a standard nucleotide, by its name
+                four = {"A": ("O4'", "C1'", "N9", "C4"), "G": ("O4'", "C1'", "N9", "C4"), "DA": ("O4'", "C1'", "N9", "C4"), "DG": ("O4'", "C1'", "N9", "C4"),
+                        "C": ("O4'", "C1'", "N1", "C2"), "U": ("O4'", "C1'", "N1", "C2"), "DC": ("O4'", "C1'", "N1", "C2"), "DT": ("O4'", "C1'", "N1", "C2")}.get(r.name)
+                if four is not None:
+                    defined = all(r.find_atom(nm) is not None for nm in four)
+                    ctx.coverage["chi_presence_compared"] = ctx.coverage.get("chi_presence_compared", 0) + 1
+                    if defined:
+                        ctx.coverage["chi_defined_" + r.name] = ctx.coverage.get("chi_defined_" + r.name, 0) + 1
+                    if has1 != defined or has2 != defined:
+                        ctx.violation("a standard nucleotide has its four glycosidic-torsion atoms exactly when both readers report a chi value, and they do not",
+                                      {"kind": kind, "format": fmt, "residue": r.full_name, "atoms_present": defined, "residue_level_reports": has1, "table_level_reports": has2, "file": text[:3000]})
+                if has1 and has2:
                     ctx.coverage["chi_compared"] = ctx.coverage.get("chi_compared", 0) + 1
                     if abs(abs(float(c)) - abs(r.chi)) > 1e-6:
                         ctx.violation("glycosidic torsion magnitudes from the two readers differ", {"kind": kind, "residue": r.full_name, "v1": r.chi, "v2": float(c)})
